@@ -316,6 +316,57 @@ fn observe<Ty: EdgeType>(g: &GM<Ty>, m: &Model, cfg: &Cfg, obs_rng: &mut Rng) ->
     ensure!("all_edges", sorted(&all) == me, "all_edges() = {:?}, model {:?}", all, me);
     let all_rev: Vec<(Key, Key, u32)> = g.all_edges().rev().map(|(a, b, w)| { let (x, y) = canon::<Ty>(a, b); (x, y, *w) }).collect();
     ensure!("all_edges_rev", sorted(&all_rev) == me, "all_edges().rev() = {:?}, model {:?}", all_rev, me);
+    // iterator protocol of the whole-graph iterators: every way of consuming them tells the
+    // same sequence
+    {
+        let raw: Vec<(Key, Key, u32)> = g.all_edges().map(|(a, b, w)| (a, b, *w)).collect();
+        let len = raw.len();
+        ensure!("all_edges_size_hint", g.all_edges().size_hint() == (len, Some(len)), "all_edges().size_hint() = {:?} with {} edges", g.all_edges().size_hint(), len);
+        ensure!("all_edges_count", g.all_edges().count() == len, "all_edges().count() = {} with {} edges", g.all_edges().count(), len);
+        let last = g.all_edges().last().map(|(a, b, w)| (a, b, *w));
+        ensure!("all_edges_last", last == raw.last().copied(), "all_edges().last() = {:?}, the sequence ends with {:?}", last, raw.last());
+        let k = obs_rng.below(len + 2);
+        let mut it = g.all_edges();
+        let nth = it.nth(k).map(|(a, b, w)| (a, b, *w));
+        ensure!("all_edges_nth", nth == raw.get(k).copied(), "all_edges().nth({}) = {:?}, the sequence has {:?} there", k, nth, raw.get(k));
+        let after = it.next().map(|(a, b, w)| (a, b, *w));
+        ensure!("all_edges_nth", after == raw.get(k + 1).copied(), "all_edges(): next() after nth({}) = {:?}, the sequence has {:?} there", k, after, raw.get(k + 1));
+        // meet in the middle
+        let mut it = g.all_edges();
+        let (mut front, mut back) = (Vec::new(), Vec::new());
+        loop {
+            let take_front = obs_rng.chance(1, 2);
+            let x = if take_front { it.next() } else { it.next_back() };
+            match x {
+                Some((a, b, w)) => if take_front { front.push((a, b, *w)) } else { back.push((a, b, *w)) },
+                None => break,
+            }
+            if front.len() + back.len() > len + 2 {
+                break;
+            }
+        }
+        back.reverse();
+        front.extend(back);
+        ensure!("all_edges_double_ended", front == raw, "all_edges() consumed from both ends gives {:?}, forwards {:?}", front, raw);
+        ensure!("nodes_size_hint", g.nodes().size_hint() == (nodes.len(), Some(nodes.len())), "nodes().size_hint() = {:?} with {} nodes", g.nodes().size_hint(), nodes.len());
+        ensure!("nodes_count", g.nodes().count() == nodes.len(), "nodes().count() = {}", g.nodes().count());
+        ensure!("nodes_last", g.nodes().last() == nodes.last().copied(), "nodes().last() = {:?}, the sequence ends with {:?}", g.nodes().last(), nodes.last());
+        let k = obs_rng.below(nodes.len() + 2);
+        ensure!("nodes_nth", g.nodes().nth(k) == nodes.get(k).copied(), "nodes().nth({}) = {:?}, the sequence has {:?} there", k, g.nodes().nth(k), nodes.get(k));
+        let (cn, ce) = g.capacity();
+        ensure!("capacity", cn >= nodes.len() && ce >= len, "capacity() = ({}, {}) below the element counts ({}, {})", cn, ce, nodes.len(), len);
+        // compact edge numbering
+        let eb = petgraph::visit::EdgeIndexable::edge_bound(g);
+        ensure!("edge_bound", eb == len, "edge_bound() = {} with {} edges", eb, len);
+        let mut seen = vec![false; len];
+        for &(a, b, _) in &raw {
+            let i = petgraph::visit::EdgeIndexable::to_index(g, (a, b));
+            ensure!("edge_to_index", i < len && !seen[i], "EdgeIndexable::to_index(({}, {})) = {} (bound {}, already used: {})", a, b, i, len, i < len && seen[i]);
+            seen[i] = true;
+            let back = petgraph::visit::EdgeIndexable::from_index(g, i);
+            ensure!("edge_from_index", back == (a, b), "EdgeIndexable::from_index(to_index(({}, {}))) = {:?}", a, b, back);
+        }
+    }
     // compact numbering
     let n = nodes.len();
     let mut seen = vec![false; n];
